@@ -14,7 +14,7 @@ func init() { register("C18", c18) }
 
 func c18(r *core.Run) {
 	p := r.P
-	r.Explain = "C18 decided structurally: (SLOT) in the JSON store every append to the signature slice is followed, on every path to the next iteration or return, by an update of the ID→slot map (or the map is rebuilt after the database is replaced); (MIGRATE) in the streaming migration every Token/Decode error on the signatures path leads to an error return, the closing bracket is read, a missing array is an error, and the only unchecked decode skips foreign keys; (CODEC) the value gob-encoded for a record and the value decoded from it have the same static type, and the array key the export writes, the key the JSON store writes and the key the migration looks for agree; (ATOMICSAVE) = C07.JSONSAVE. Not decided: field-for-field equality through gob/JSON (round trip) — a runtime property."
+	r.Explain = "C18 decided structurally: (SLOT) in the JSON store every append to the signature slice is followed, on every path to the next iteration or return, by an update of the ID→slot map (or the map is rebuilt after the database is replaced); (MIGRATE) in the streaming migration every Token/Decode error on the signatures path leads to an error return, the closing bracket is read, a missing array is an error, and the only unchecked decode skips foreign keys; (CODEC) the value gob-encoded for a record and the value decoded from it have the same static type, and the array key the export writes, the key the JSON store writes and the key the migration looks for agree; (ATOMICSAVE) = C07.JSONSAVE. Not decided: field-for-field equality through gob/JSON (round trip) — a runtime property. (FRESH) a signature decoded inside a loop is decoded into a variable allocated in that iteration."
 	r.Undecided = []string{"field-for-field round-trip equality through gob and JSON", "last-one-wins for repeated IDs across batch boundaries (follows from C06.DEDUP + stale-entry cleanup, checked there)"}
 
 	// ---- SLOT
